@@ -56,6 +56,7 @@ REQUIRED = ["roundtrips", "src_text", "src_bytes", "src_path", "offset_0", "offs
             "rejected_reads_before_roundtrip", "loaded_trees_saved_again", "size_sweep_cases", "src_path_other_spellings",
             "eswc_roundtrips", "line_generators_interleaved", "src_text_stream_with_its_own_encoding",
             "roundtrips_under_custom_column_names", "comment_lists_edited_after_construction",
+            "reads_with_root_repair_requested",
             "tap_to_swc", "tap_parse_swc", "tap_reset_index_"]
 FLOOR = {"quick": 500, "thorough": 40000}
 SHARDS = {"quick": 8, "thorough": 16}
@@ -281,6 +282,22 @@ def _exec(ctx, case, tmp):
                 t2 = Tree.from_swc(io.BytesIO(text.encode("utf-8")))
                 df, cm = su.read_swc(io.BytesIO(text.encode("utf-8")))
                 ctx.count("src_bytes")
+        if kind in ("text", "bytes") and w_i == 0 and case["vseed"] % 4 == 2:
+            # a reader asked to repair several roots, should there be any, on text that has one
+            # root: nothing to repair, the same tree
+            fr = ["nearest", "somas"][case["vseed"] // 4 % 2]
+            src_ = io.StringIO(text) if kind == "text" else io.BytesIO(text.encode("utf-8"))
+            t_fr = Tree.from_swc(src_, fix_roots=fr)
+            ctx.count("reads_with_root_repair_requested")
+            if not (np.array_equal(t_fr.pid(), t2.pid()) and np.array_equal(t_fr.type(), t2.type())
+                    and np.array_equal(t_fr.x(), t2.x())):
+                j = int(np.nonzero(t_fr.pid() != t2.pid())[0][0]) if len(t_fr.pid()) == len(t2.pid()) \
+                    and (t_fr.pid() != t2.pid()).any() else -1
+                return ctx.violation("parent-changed",
+                                     f"{what}: read with fix_roots={fr!r} (the text has a single "
+                                     f"root) the tree differs from the plain read"
+                                     f"{f': parent of node {j} is {t_fr.pid()[j]}, not {t2.pid()[j]}' if j >= 0 else ''}",
+                                     case)
         ctx.count("roundtrips")
         ctx.count("offset_0" if off == 0 else ("offset_big" if off >= 1000 else "offset_small"))
         if w_i > 0:
